@@ -14,13 +14,27 @@ import (
 
 func valueOutcome(st *State, v Val) Outcome { return Outcome{Kind: "value", St: st, Ret: v} }
 
-func (e *Engine) doCall(st *State, fr *frame, in *ssa.Call, depth int) []Outcome {
+func (e *Engine) doCall(st *State, fr *frame, in ssa.CallInstruction, depth int) []Outcome {
 	cc := in.Common()
 	args := make([]Val, len(cc.Args))
 	for i, a := range cc.Args {
 		args[i] = e.val(st, fr, a)
 	}
-	rt := in.Type()
+	var rt types.Type
+	if v := in.Value(); v != nil {
+		rt = v.Type()
+	} else {
+		// defer / go: the results are discarded
+		res := cc.Signature().Results()
+		switch res.Len() {
+		case 0:
+			rt = types.NewTuple()
+		case 1:
+			rt = res.At(0).Type()
+		default:
+			rt = res
+		}
+	}
 
 	if cc.IsInvoke() {
 		recv := e.val(st, fr, cc.Value)
@@ -100,7 +114,7 @@ func (e *Engine) inline(st *State, fn *ssa.Function, args, bindings []Val, depth
 
 func fnFullName(fn *ssa.Function) string { return fn.String() }
 
-func (e *Engine) staticCall(st *State, fn *ssa.Function, args, bindings []Val, rt types.Type, in *ssa.Call, depth int) []Outcome {
+func (e *Engine) staticCall(st *State, fn *ssa.Function, args, bindings []Val, rt types.Type, in ssa.CallInstruction, depth int) []Outcome {
 	name := fnFullName(fn)
 	if outs, ok := e.model(st, name, fn, args, rt, in); ok {
 		return outs
@@ -127,7 +141,7 @@ func (e *Engine) staticCall(st *State, fn *ssa.Function, args, bindings []Val, r
 	return []Outcome{valueOutcome(st, res)}
 }
 
-func (e *Engine) builtin(st *State, name string, args []Val, rt types.Type, in *ssa.Call) (Val, string) {
+func (e *Engine) builtin(st *State, name string, args []Val, rt types.Type, in ssa.CallInstruction) (Val, string) {
 	switch name {
 	case "len", "cap":
 		switch a := args[0].(type) {
@@ -188,7 +202,7 @@ func (e *Engine) sliceElems(st *State, v Val) ([]Val, bool) {
 }
 
 // model implements the library contracts the analysis trusts.
-func (e *Engine) model(st *State, name string, fn *ssa.Function, args []Val, rt types.Type, in *ssa.Call) ([]Outcome, bool) {
+func (e *Engine) model(st *State, name string, fn *ssa.Function, args []Val, rt types.Type, in ssa.CallInstruction) ([]Outcome, bool) {
 	one := func(v Val) ([]Outcome, bool) { return []Outcome{valueOutcome(st, v)}, true }
 	switch name {
 	case "math.Pow":
@@ -461,7 +475,7 @@ func (e *Engine) streamLen(s *Stream) *Form {
 	return nil
 }
 
-func (e *Engine) readerMethod(st *State, rd *ReaderVal, name string, args []Val, rt types.Type, in *ssa.Call) ([]Outcome, bool) {
+func (e *Engine) readerMethod(st *State, rd *ReaderVal, name string, args []Val, rt types.Type, in ssa.CallInstruction) ([]Outcome, bool) {
 	switch name {
 	case "ReadByte":
 		pos := e.streamPos(st, rd.S)
@@ -509,7 +523,7 @@ func (e *Engine) readerMethod(st *State, rd *ReaderVal, name string, args []Val,
 // readInto models io.ReadFull(r, buf) / r.Read(buf) on its success path
 // (buf completely filled with the next len(buf) stream bytes) and, with
 // FailReads, the failure path.
-func (e *Engine) readInto(st *State, rd *ReaderVal, bufv Val, rt types.Type, what string, in *ssa.Call) ([]Outcome, bool) {
+func (e *Engine) readInto(st *State, rd *ReaderVal, bufv Val, rt types.Type, what string, in ssa.CallInstruction) ([]Outcome, bool) {
 	buf, ok := bufv.(*SliceVal)
 	if !ok {
 		return nil, false
